@@ -113,7 +113,7 @@ def okIf (p : Prop) [Decidable p] (r : String) : String := if p then r else "pan
 
 /-! types of the grid language in prefix notation, tokens separated by `,`:
     `i s e S M F` leaves, `A<n>` + type, `T<k>` + k × (`n|b|m`, type) -/
-open GV.Spec.GoTypes in
+open GV.Spec.GoComparable in
 mutual
 def parseTy : Nat → List String → Option (Ty × List String)
   | 0, _ => none
@@ -143,7 +143,7 @@ def parseFields : Nat → Nat → List String → Option (Fields × List String)
   | _+1, _+1, [] => none
 end
 
-def parseTyStr (s : String) : Option GV.Spec.GoTypes.Ty :=
+def parseTyStr (s : String) : Option GV.Spec.GoComparable.Ty :=
   let toks := s.splitOn ","
   match parseTy (toks.length + 1) toks with
   | some (t, []) => some t
@@ -151,13 +151,13 @@ def parseTyStr (s : String) : Option GV.Spec.GoTypes.Ty :=
 
 def handleChk : List String → String
   | ["mcomparable", t] => match parseTyStr t with | some t => toString (tyComparable t) | none => "bad-op"
-  | ["scomparable", t] => match parseTyStr t with | some t => toString (GV.Spec.GoTypes.comparable t) | none => "bad-op"
+  | ["scomparable", t] => match parseTyStr t with | some t => toString (GV.Spec.GoComparable.comparable t) | none => "bad-op"
   | ["mifaceeqty", t] => match parseTyStr t with | some t => showOpt toString (ifaceEqSameType t) | none => "bad-op"
   | ["sifaceeqty", t] => match parseTyStr t with
-    | some t => if GV.Spec.GoTypes.comparable t then "true" else "panic" | none => "bad-op"
+    | some t => if GV.Spec.GoComparable.comparable t then "true" else "panic" | none => "bad-op"
   | ["mkeyfor", t] => match parseTyStr t with | some t => showOpt (fun _ => "ok") (ifaceKeyFor t) | none => "bad-op"
   | ["skeyfor", t] => match parseTyStr t with
-    | some t => if GV.Spec.GoTypes.comparable t then "ok" else "panic" | none => "bad-op"
+    | some t => if GV.Spec.GoComparable.comparable t then "ok" else "panic" | none => "bad-op"
   | ["mindex", len, i] => match len.toInt?, i.toInt? with
     | some len, some i => showOpt toString (indexCheck len i) | _, _ => "bad-op"
   | ["sindex", len, i] => match len.toInt?, i.toInt? with
